@@ -68,10 +68,14 @@ pub trait Caps {
     fn kid_owned(&self) -> Option<Box<dyn Caps>> {
         None
     }
-    fn kid_ref(&self, m: &str, a: i64) -> Option<i64> {
+    fn kid_ref(&self, sel: i64, m: &str, a: i64) -> Option<i64> {
         None
     }
-    fn kid_mut(&mut self, m: &str, a: i64) -> Option<i64> {
+    fn kid_mut(&mut self, sel: i64, m: &str, a: i64) -> Option<i64> {
+        None
+    }
+    /// lending child: obtain the owned wrapper, look at the world while it lives (`probe`), call through it, drop it
+    fn kid_view(&mut self, m: &str, a: i64, probe: &dyn Fn() -> usize) -> Option<(i64, usize)> {
         None
     }
     /// check / as_ref / as_mut: Some(None) = cast refused, Some(Some(r)) = result (check: 1)
@@ -169,13 +173,21 @@ macro_rules! kid_caps {
         fn kid_owned(&self) -> Option<Box<dyn Caps>> {
             Some(Box::new(HRa(self.0.kid_owned())))
         }
-        fn kid_ref(&self, m: &str, a: i64) -> Option<i64> {
-            let k = self.0.kid_ref();
+        fn kid_ref(&self, sel: i64, m: &str, a: i64) -> Option<i64> {
+            // sel 0: the fixed accessor; 1, 2: the selecting accessor asked for the first / second inner value
+            let k = if sel == 0 { self.0.kid_ref() } else { self.0.kid_sel(sel - 1) };
             ra_call(k, m, a)
         }
-        fn kid_mut(&mut self, m: &str, a: i64) -> Option<i64> {
-            let k = self.0.kid_mut();
+        fn kid_mut(&mut self, sel: i64, m: &str, a: i64) -> Option<i64> {
+            let k = if sel == 0 { self.0.kid_mut() } else { self.0.kid_sel_mut(sel - 1) };
             ma_call(k, m, a)
+        }
+        fn kid_view(&mut self, m: &str, a: i64, probe: &dyn Fn() -> usize) -> Option<(i64, usize)> {
+            let v = self.0.kid_view();
+            let during = probe();
+            let r = ra_call(&v, m, a)?;
+            drop(v);
+            Some((r, during))
         }
     };
 }
@@ -879,10 +891,20 @@ impl World {
             }
             "KidBorrowed" => {
                 let (which, m, a) = (e["which"].as_str().unwrap(), e["m"].as_str().unwrap(), e["a"].as_i64().unwrap());
+                let sel = e["sel"].as_i64().unwrap_or(0);
                 let s = self.slots[x].as_mut().unwrap();
-                let r = ledger::track(|| if which == "ref" { s.obj.kid_ref(m, a) } else { s.obj.kid_mut(m, a) })
+                let r = ledger::track(|| if which == "ref" { s.obj.kid_ref(sel, m, a) } else { s.obj.kid_mut(sel, m, a) })
                     .expect("borrowed child not available");
                 self.last = ret(r);
+            }
+            "KidView" => {
+                let (m, a) = (e["m"].as_str().unwrap(), e["a"].as_i64().unwrap());
+                let c = self.slots[x].as_ref().unwrap().meta.ctx;
+                let weak = if c == 0 { None } else { Some(self.ctx_weak[c].clone()) };
+                let probe = move || weak.as_ref().map(|w| w.strong_count()).unwrap_or(0);
+                let s = self.slots[x].as_mut().unwrap();
+                let (r, during) = ledger::track(|| s.obj.kid_view(m, a, &probe)).expect("lending child not available");
+                self.last = json!({"kind":"view","n": r + 1000 * during as i64});
             }
             "Consume" => {
                 let m = e["m"].as_str().unwrap();
@@ -927,10 +949,10 @@ impl World {
     }
 
     /// registers of payload `i`, read from its memory while it is live (never after its drop)
-    fn regs(&self, i: usize) -> (i64, i64) {
+    fn regs(&self, i: usize) -> (i64, i64, i64) {
         match self.shadow[i] {
-            Some(p) if self.be.drops(i) == 0 => unsafe { ((*p).val, (*p).inner.val) },
-            _ => (-1, -1),
+            Some(p) if self.be.drops(i) == 0 => unsafe { ((*p).val, (*p).inner.val, (*p).inner2.val) },
+            _ => (-1, -1, -1),
         }
     }
 
@@ -941,8 +963,8 @@ impl World {
             .map(|i| {
                 let d = self.be.drops(i);
                 let st = if d == 0 { "live" } else { "dropped" };
-                let (v, iv) = self.regs(i);
-                json!([st, v, iv, d])
+                let (v, iv, iv2) = self.regs(i);
+                json!([st, v, iv, d, iv2])
             })
             .collect();
         let h: Vec<Value> = self
@@ -989,7 +1011,7 @@ impl World {
             if g[0] != e[0] || g[3] != e[3] {
                 return ("bad:drop", format!("payload {}: state/drop count differs: got {} expected {}", i + 1, g, e));
             }
-            if g[1] != json!(-1) && e[0] == "live" && (g[1] != e[1] || g[2] != e[2]) {
+            if g[1] != json!(-1) && e[0] == "live" && (g[1] != e[1] || g[2] != e[2] || g[4] != e[4]) {
                 return ("bad:call", format!("payload {}: registers differ (a call changed the wrong state or the wrong amount): got {} expected {}", i + 1, g, e));
             }
         }
@@ -997,6 +1019,12 @@ impl World {
         if got["h"] != exp["h"] {
             let cls = if is_cast { "bad:cast" } else { "bad:call" };
             return (cls, format!("handles differ (view, requested traits or the instance the object dispatches to): got {} expected {}", got["h"], exp["h"]));
+        }
+        if got["last"] != exp["last"] && got["last"]["kind"] == "view" && exp["last"]["kind"] == "view"
+            && got["last"]["n"].as_i64().unwrap_or(0) % 1000 == exp["last"]["n"].as_i64().unwrap_or(0) % 1000 {
+            // the call through the lent wrapper returned what it should; what differs is the context count while it lived
+            return ("bad:ctx", format!("context reference count while a lent child object is alive is {}, expected {} (the child holds its own clone)",
+                                       got["last"]["n"].as_i64().unwrap_or(0) / 1000, exp["last"]["n"].as_i64().unwrap_or(0) / 1000));
         }
         if got["last"] != exp["last"] {
             let verdict_differs = got["last"]["kind"] != exp["last"]["kind"];
